@@ -5,6 +5,7 @@ package common
 import (
 	"bytes"
 	stdlzw "compress/lzw"
+	"crypto/sha256"
 	"encoding/hex"
 	"fmt"
 	"io"
@@ -14,6 +15,7 @@ import (
 	"testing"
 
 	"github.com/icon-project/goloop/verifshim/ev"
+	"github.com/icon-project/goloop/verifshim/hist"
 )
 
 // ---------------------------------------------------------------------------
@@ -118,8 +120,10 @@ func c25RefEncode(x []byte) ([]byte, c25Stats) {
 // ---------------------------------------------------------------------------
 
 type c25Case struct {
-	Family string `json:"family"`
-	Hex    string `json:"hex"` // the input bytes
+	Family   string   `json:"family"`
+	Hex      string   `json:"hex,omitempty"`      // the input bytes
+	History  []string `json:"history,omitempty"`  // family "history": names of the calls, in order
+	Expected string   `json:"expected,omitempty"` // family "history": required result of the last call
 }
 
 type c25Env struct {
@@ -217,6 +221,103 @@ func (e *c25Env) check(family string, x []byte) {
 	e.mu.Lock()
 	e.sizes[len(comp)]++
 	e.mu.Unlock()
+}
+
+// ---------------------------------------------------------------------------
+// History family: results must not depend on the calls made before.
+// ---------------------------------------------------------------------------
+
+func c25Res(b []byte) string {
+	if len(b) <= 48 {
+		return fmt.Sprintf("%x", b)
+	}
+	h := sha256.Sum256(b)
+	return fmt.Sprintf("len=%d sha256=%x head=%x", len(b), h[:8], b[:16])
+}
+
+// c25HistoryCalls: Compress and Decompress calls on valid inputs of different
+// sizes and shapes, and Decompress calls on damaged streams (every truncation
+// and every single-byte inversion of small valid streams, garbage).
+func c25HistoryCalls(thorough bool) []hist.Call {
+	var calls []hist.Call
+	type in struct {
+		name string
+		x    []byte
+	}
+	bloom, stripped := c25Bloom(100, 2047)
+	valid := []in{
+		{"a", []byte("a")}, {"ab", []byte("ab")}, {"zeros10", make([]byte, 10)}, {"abcabcabc", []byte("abcabcabc")},
+		{"pattern40", c25Pairs(40, 3)}, {"bloom", bloom}, {"bloom-stripped", stripped}, {"zeros600", make([]byte, 600)},
+		{"pairs300", c25Pairs(300, 0)}, {"pairs3900", c25Pairs(3900, 0)}, {"counting500", c25Counting(500, []byte{0x00, 0xff})},
+		{"pairs255", c25Pairs(255, 1)}, {"pairs767", c25Pairs(767, 1)},
+	}
+	for _, v := range valid {
+		v := v
+		ref, _ := c25RefEncode(v.x)
+		calls = append(calls, hist.Call{Name: "Compress(" + v.name + ")", Class: "Compress-valid", Run: func() string { return c25Res(Compress(v.x)) }, Want: c25Res(ref), HasWant: true})
+		calls = append(calls, hist.Call{Name: "Decompress(enc(" + v.name + "))", Class: "Decompress-valid", Run: func() string { return c25Res(Decompress(ref)) }, Want: c25Res(v.x), HasWant: true})
+	}
+	calls = append(calls, hist.Call{Name: "Compress(empty)", Class: "Compress-valid", Run: func() string { return c25Res(Compress(nil)) }, Want: "", HasWant: true},
+		hist.Call{Name: "Decompress(empty)", Class: "Decompress-valid", Run: func() string { return c25Res(Decompress(nil)) }, Want: "", HasWant: true})
+	bad := func(name string, y []byte) {
+		y = append([]byte{}, y...)
+		calls = append(calls, hist.Call{Name: "Decompress(" + name + ")", Class: "Decompress-damaged", Run: func() string {
+			var out []byte
+			if p := ev.Catch(func() { out = Decompress(y) }); p != "" {
+				return "panic:" + p
+			}
+			return c25Res(out)
+		}})
+	}
+	small := 5
+	if thorough {
+		small = 7
+	}
+	for _, v := range valid[:small] {
+		ref, _ := c25RefEncode(v.x)
+		for cut := 1; cut < len(ref); cut++ {
+			bad(fmt.Sprintf("enc(%s)[:%d]", v.name, cut), ref[:cut])
+		}
+		for pos := 0; pos < len(ref); pos++ {
+			d := append([]byte{}, ref...)
+			d[pos] ^= 0xff
+			bad(fmt.Sprintf("enc(%s)^ff@%d", v.name, pos), d)
+		}
+	}
+	ref, _ := c25RefEncode(valid[9].x) // stream with a clear code, cut in the middle and near the end
+	bad("enc(pairs3900)[:2000]", ref[:2000])
+	bad("enc(pairs3900)[:len-1]", ref[:len(ref)-1])
+	bad("ff", []byte{0xff})
+	bad("ffffff", []byte{0xff, 0xff, 0xff})
+	bad("ff*100", bytes.Repeat([]byte{0xff}, 100))
+	bad("eof-only", []byte{0x80, 0x80})
+	bad("clear-then-nothing", []byte{0x80, 0x00})
+	return calls
+}
+
+func (e *c25Env) history(r *ev.Run) (histories int, complete bool) {
+	calls := c25HistoryCalls(r.Thorough())
+	var triple []int
+	if r.Thorough() {
+		for i := range calls {
+			if i < 30 || i%9 == 0 {
+				triple = append(triple, i)
+			}
+		}
+	}
+	restore := hist.Pin()
+	defer restore()
+	n, complete := hist.Explore(calls, triple, 256, r.Expired, func(sig, detail string, names []string, expected string) {
+		r.Violation(sig, detail, c25Case{Family: "history", History: names, Expected: expected})
+	})
+	r.Eval(n)
+	for i, c := range calls {
+		r.Nontrivial(fmt.Sprintf("history|%d|%s", i, c.Name))
+	}
+	r.Set("history_alphabet", len(calls))
+	r.Set("history_triple_alphabet", len(triple))
+	r.Set("histories", n)
+	return n, complete
 }
 
 func c25Diff(a, b []byte) int {
@@ -356,7 +457,7 @@ func c25Bloom(bits ...int) (full, stripped []byte) {
 
 func TestVerifC25(t *testing.T) {
 	r := ev.Start(t, "C25", "exploration")
-	r.Rule("inputs: all byte strings of length<=2 (thorough: + length 3 over 32 byte values, length 4 over 8 values, length<=8 over {00,01,80,ff}); all strings of length<=9 (thorough <=12) over {00,01,80}; bloom-shaped 256-byte strings and their leading-zero-stripped form with every 1-bit pattern, every 2-bit pattern (quick: both bits in the first/last 8 bytes or at most 16 bit positions apart; thorough: all 2 096 128), thorough every 3-bit pattern inside the first/last 4 bytes; runs of one byte value (lengths 1..600 x {00,ff,55}); table-overflow families: high-entropy generator (all consecutive pairs distinct) at every length 0..4200 (thorough every length 0..12288 for 3 offsets), +-40 around the 2nd and 3rd dictionary overflow and every 97th length to 12288; counting sequences over alphabets of 2 and 3 symbols at every length within +-40 (thorough +-400) of their first dictionary overflow. distinct_nontrivial = distinct inputs (every non-empty input is compressed, decoded by two decoders and compared byte-for-byte with the reference encoder)")
+	r.Rule("inputs: all byte strings of length<=2 (thorough: + length 3 over 32 byte values, length 4 over 8 values, length<=8 over {00,01,80,ff}); all strings of length<=9 (thorough <=12) over {00,01,80}; bloom-shaped 256-byte strings and their leading-zero-stripped form with every 1-bit pattern, every 2-bit pattern (quick: both bits in the first/last 8 bytes or at most 16 bit positions apart; thorough: all 2 096 128), thorough every 3-bit pattern inside the first/last 4 bytes; runs of one byte value (lengths 1..600 x {00,ff,55}); table-overflow families: high-entropy generator (all consecutive pairs distinct) at every length 0..4200 (thorough every length 0..12288 for 3 offsets), +-40 around the 2nd and 3rd dictionary overflow and every 97th length to 12288; counting sequences over alphabets of 2 and 3 symbols at every length within +-40 (thorough +-400) of their first dictionary overflow. history family: on one pinned goroutine (single P, collector off between the calls of a history) every ordered pair (thorough: also every triple over a 40-call subset) of calls from an alphabet of Compress / Decompress calls on 13 valid inputs of different sizes (1 byte .. 3900 bytes, with and without clear code, streams ending at different bit offsets) and Decompress calls on every truncation and every single-byte inversion of 5 (thorough 7) small valid streams, cut large streams and garbage: the last result must equal the independent reference (valid calls) resp. be the same after every history (damaged inputs). distinct_nontrivial = distinct inputs (every non-empty input is compressed, decoded by two decoders and compared byte-for-byte with the reference encoder)")
 	r.Assume("reference encoder (map-of-strings dictionary, bit-at-a-time MSB packer) implements the pre-Go-1.17 compress/lzw writer format as described in the harness header",
 		"second decoder = the Go 1.23 standard library compress/lzw reader")
 	e := &c25Env{r: r, sizes: map[int]int{}}
@@ -372,6 +473,26 @@ func TestVerifC25(t *testing.T) {
 	if ev.Replaying() {
 		var c c25Case
 		ev.ReplayCase(&c)
+		if c.Family == "history" {
+			calls := c25HistoryCalls(true)
+			byName := map[string]int{}
+			for i, cl := range calls {
+				byName[cl.Name] = i
+			}
+			var idx []int
+			for _, n := range c.History {
+				idx = append(idx, byName[n])
+			}
+			restore := hist.Pin()
+			got := hist.Sequence(calls, idx)
+			restore()
+			r.Eval(1)
+			if got != c.Expected {
+				r.Violation("result-depends-on-history:replay", fmt.Sprintf("history %v: last call returned %s, expected %s", c.History, got, c.Expected), c)
+			}
+			r.Finish(false)
+			return
+		}
 		x, err := hex.DecodeString(c.Hex)
 		if err != nil {
 			t.Fatal(err)
@@ -541,6 +662,11 @@ func TestVerifC25(t *testing.T) {
 		}
 	}
 	b.flush()
+
+	// history family (sequential, pinned): no call may influence a later one
+	if _, complete := e.history(r); !complete {
+		exhaustive = false
+	}
 
 	r.Set("inputs", b.n)
 	r.Set("non_empty_inputs", e.nonEmpty)
